@@ -1,0 +1,59 @@
+//! Verification harness hooks for the identity group (C01): the TLS raw-public-key verifiers,
+//! the certificate resolver and the endpoint-id <-> TLS-name mapping.  Only compiled with
+//! `--cfg iroh_verif` (see /verif/BUILDING.md).
+#![allow(missing_docs, missing_debug_implementations, unreachable_pub)]
+
+use iroh_base::{EndpointId, SecretKey};
+use rustls::pki_types::ServerName;
+
+use crate::tls::name;
+
+/// `tls::name::encode`
+pub fn name_encode(id: EndpointId) -> String {
+    name::encode(id)
+}
+
+/// `tls::name::decode`
+pub fn name_decode(s: &str) -> Option<EndpointId> {
+    name::decode(s)
+}
+
+/// `ServerCertificateVerifier::verify_server_cert`
+pub fn server_cert(
+    end_entity: &[u8],
+    intermediates: &[Vec<u8>],
+    server_name: &ServerName<'_>,
+) -> Result<(), rustls::Error> {
+    name::verif_ident::server_cert(end_entity, intermediates, server_name)
+}
+
+/// `ServerCertificateVerifier::verify_tls13_signature` (signature of the server, checked by the client)
+pub fn server_sig(message: &[u8], cert: &[u8], scheme: u16, sig: &[u8]) -> Result<(), rustls::Error> {
+    name::verif_ident::server_sig(message, cert, scheme, sig)
+}
+
+/// `ClientCertificateVerifier::verify_client_cert`
+pub fn client_cert(end_entity: &[u8], intermediates: &[Vec<u8>]) -> Result<(), rustls::Error> {
+    name::verif_ident::client_cert(end_entity, intermediates)
+}
+
+/// `ClientCertificateVerifier::verify_tls13_signature` (signature of the client, checked by the server)
+pub fn client_sig(message: &[u8], cert: &[u8], scheme: u16, sig: &[u8]) -> Result<(), rustls::Error> {
+    name::verif_ident::client_sig(message, cert, scheme, sig)
+}
+
+/// `verify_tls12_signature` of either verifier
+pub fn tls12_sig(server_side: bool, message: &[u8], cert: &[u8], scheme: u16, sig: &[u8]) -> bool {
+    name::verif_ident::tls12_sig(server_side, message, cert, scheme, sig)
+}
+
+/// Verifier policy flags: (offer_client_auth, server verifier requires raw keys, client verifier
+/// requires raw keys, schemes of the server verifier, schemes of the client verifier)
+pub fn policy() -> (bool, bool, bool, Vec<u16>, Vec<u16>) {
+    name::verif_ident::policy()
+}
+
+/// What `ResolveRawPublicKeyCert` presents for `secret_key`: (chain, scheme, signature over `message`)
+pub fn present(secret_key: &SecretKey, message: &[u8]) -> Option<(Vec<Vec<u8>>, u16, Vec<u8>)> {
+    name::verif_ident_present(secret_key, message)
+}
